@@ -41,6 +41,14 @@ structure Arith (K : Type) where
   setIm : K → Int → K           -- `c.y = F::from_i32(v)`
   roundRe : K → Int             -- `c.x.round().to_i64()`
   roundIm : K → Int             -- `c.y.round().to_i64()`
+  -- the further operators of `complex.rs` a CALLER can apply to spectra (not used by `fft.rs` itself):
+  neg : K → K                   -- `-c` (`Neg`)
+  scale : Int → K → K           -- `c * F::from_i32(k)` (`Mul<F>`, `MulAssign<F>`: the same two products)
+  divS : Int → K → K            -- `c / F::from_i32(k)` (`Div<F>`, `DivAssign<F>`)
+  div : K → K → K               -- `a / b` = `a * b.conj() / b.abs2()` (`Div`, `DivAssign`)
+  abs2 : K → K                  -- `Complex::new_real(c.abs2())`
+  absq : K → K                  -- `let r = c.abs(); Complex::new_real(r * r)`
+  ci : K                        -- `Complex::I`
 
 /-- `w`, `reversed`, `bufs[0]`. -/
 structure State (K : Type) where
@@ -363,6 +371,57 @@ def fftMulInvInto? (A : Arith K) (s : State K) (a b : Array Int) (n : Nat) (res 
     | .error e => .error e
     | .ok (s, fb) => fftInvInto? A s (pointwise A fa fb) res
 
+/-! ### Spectral expressions: everything a caller can do to spectra with the operators of `complex.rs` -/
+
+/-- A per-bin expression over forward transforms, built from the public operators of `Complex<F>`.
+    The operator form (`a * b`), the assign form (`a *= b`), `Copy` and `.clone()` of an operand are the same node:
+    `complex.rs` computes the same formula for each pair (`Complex::default()` and `ZeroOne::ZERO` are both `zero`). -/
+inductive SExpr where
+  | leaf (i : Nat)              -- bin of the `i`-th forward transform
+  | zero | one | ci             -- `Complex::ZERO` / `Complex::default()`, `Complex::ONE`, `Complex::I`
+  | add (a b : SExpr) | sub (a b : SExpr) | mul (a b : SExpr) | div (a b : SExpr)
+  | neg (a : SExpr) | conj (a : SExpr) | abs2 (a : SExpr) | absq (a : SExpr)
+  | scale (k : Int) (a : SExpr) | divS (k : Int) (a : SExpr)
+
+/-- Value of the expression at bin `p`. -/
+def SExpr.eval (A : Arith K) (leaves : List (Array K)) (p : Nat) : SExpr → K
+  | .leaf i => (leaves.getD i #[]).getD p A.zero
+  | .zero => A.zero
+  | .one => A.one
+  | .ci => A.ci
+  | .add a b => A.add (a.eval A leaves p) (b.eval A leaves p)
+  | .sub a b => A.sub (a.eval A leaves p) (b.eval A leaves p)
+  | .mul a b => A.mul (a.eval A leaves p) (b.eval A leaves p)
+  | .div a b => A.div (a.eval A leaves p) (b.eval A leaves p)
+  | .neg a => A.neg (a.eval A leaves p)
+  | .conj a => A.conj (a.eval A leaves p)
+  | .abs2 a => A.abs2 (a.eval A leaves p)
+  | .absq a => A.absq (a.eval A leaves p)
+  | .scale k a => A.scale k (a.eval A leaves p)
+  | .divS k a => A.divS k (a.eval A leaves p)
+
+/-- `(0..n).map(|p| expr(fa[p], fb[p], …)).collect()`. -/
+def spectrum (A : Arith K) (e : SExpr) (leaves : List (Array K)) (n : Nat) : Array K :=
+  Array.ofFn (n := n) (fun p => e.eval A leaves p.val)
+
+/-- `vs.iter().map(|v| self.fft(v, n)).collect()`: the forward transforms, one after the other on this object. -/
+def fftAll? (A : Arith K) (s : State K) : List (Array Int) → Nat → Except Panic (State K × List (Array K))
+  | [], _ => .ok (s, [])
+  | v :: vs, n =>
+    match fft? A s v n with
+    | .error e => .error e
+    | .ok (s', f) =>
+      match fftAll? A s' vs n with
+      | .error e => .error e
+      | .ok (s'', fs) => .ok (s'', f :: fs)
+
+/-- forward transforms of all operands (size `n`), the expression bin by bin, `fft_inv_into` with the destination `res`. -/
+def spectral? (A : Arith K) (s : State K) (e : SExpr) (vs : List (Array Int)) (n : Nat) (res : List Int) :
+    Except Panic (State K × List Int) :=
+  match fftAll? A s vs n with
+  | .error e' => .error e'
+  | .ok (s', fs) => fftInvInto? A s' (spectrum A e fs n) res
+
 /-! ### Call histories -/
 
 /-- One call of the public API (the composite `fftMulInv` is the user-level
@@ -379,6 +438,7 @@ inductive Op (K : Type) where
   | fftMulInv (a b : Array Int) (n : Nat)
   | fftMulInvFresh (a b : Array Int) (n : Nat)
   | fftMulInvInto (a b : Array Int) (n : Nat) (res : List Int)
+  | spectral (e : SExpr) (vs : List (Array Int)) (n : Nat) (res : List Int)
 
 /-- What a call returns. -/
 inductive Out (K : Type) where
@@ -398,6 +458,7 @@ def call (A : Arith K) (s : State K) : Op K → Except Panic (State K × Out K)
   | .fftMulInv a b n => (fftMulInv? A s none a b n).map (fun r => (r.1, .ints r.2))
   | .fftMulInvFresh a b n => (fftMulInv? A s (some (new A)) a b n).map (fun r => (r.1, .ints r.2))
   | .fftMulInvInto a b n res => (fftMulInvInto? A s a b n res).map (fun r => (r.1, .ints r.2))
+  | .spectral e vs n res => (spectral? A s e vs n res).map (fun r => (r.1, .ints r.2))
 
 /-- State of the object after a call; a call that panics (before touching the tables: the only
     panics are the assertion of `update_n` and violated preconditions) leaves the tables as they were. -/
@@ -423,6 +484,33 @@ def Build.state (A : Arith K) : Build K → State K
   | .default => Fft.default A
   | .clone b => Fft.clone (b.state A)
   | .call b op => step A (b.state A) op
+
+/-! ### Several objects alive at the same time -/
+
+/-- One step of a program over a POOL of objects: a call on object `k`, `dst = src.clone()`, `dst.clone_from(&src)`,
+    `dst = FFT::default()`, `dst = FFT::new()`, `dst = std::mem::take(&mut src)` (which leaves `FFT::default()` in `src`). -/
+inductive PoolOp (K : Type) where
+  | call (k : Nat) (op : Op K)
+  | clone (src dst : Nat)
+  | cloneFrom (src dst : Nat)
+  | default (dst : Nat)
+  | fresh (dst : Nat)
+  | take (src dst : Nat)
+
+/-- The objects are separate values: a step touches only the objects it names. -/
+def poolStep (A : Arith K) (pool : Array (State K)) : PoolOp K → Array (State K)
+  | .call k op => pool.setIfInBounds k (step A (pool.getD k (new A)) op)
+  | .clone src dst => pool.setIfInBounds dst (clone (pool.getD src (new A)))
+  | .cloneFrom src dst => pool.setIfInBounds dst (clone (pool.getD src (new A)))
+  | .default dst => pool.setIfInBounds dst (Fft.default A)
+  | .fresh dst => pool.setIfInBounds dst (new A)
+  | .take src dst =>
+    let v := pool.getD src (new A)
+    (pool.setIfInBounds src (Fft.default A)).setIfInBounds dst v
+
+/-- The pool after a whole program, starting from the given objects. -/
+def poolAfter (A : Arith K) (pool : Array (State K)) (prog : List (PoolOp K)) : Array (State K) :=
+  prog.foldl (poolStep A) pool
 
 /-- Result of a call (the part the caller sees). -/
 def result (A : Arith K) (s : State K) (op : Op K) : Except Panic (Out K) := (call A s op).map (·.2)
@@ -455,5 +543,69 @@ def conv (a b : Array Int) : List Int :=
     (forRange 0 a.size (fun i acc =>
       let x := a.getD i 0
       if x = 0 then acc else convRow x b i acc) (Array.replicate (a.size + b.size - 1) 0)).toList
+
+/-! ### Specification of spectral expressions: arithmetic in `ℤ[i][x] / (xⁿ - 1)` -/
+
+/-- Product of two Gaussian integers `(re, im)`. -/
+def gmul (x y : Int × Int) : Int × Int := (x.1 * y.1 - x.2 * y.2, x.1 * y.2 + x.2 * y.1)
+
+/-- Entry `u` of a coefficient sequence (zero beyond its end). -/
+def gget (x : Array (Int × Int)) (u : Nat) : Int × Int := x.getD u (0, 0)
+
+/-- Cyclic convolution of size `n`: coefficient `u` is `∑_{s<n} x_s · y_{(u - s) mod n}` — the product in `ℤ[i][x]/(xⁿ-1)`. -/
+def cycConv (n : Nat) (x y : Array (Int × Int)) : Array (Int × Int) :=
+  Array.ofFn (n := n) (fun u =>
+    (sumTo n (fun s => (gmul (gget x s) (gget y ((u.val + n - s) % n))).1),
+     sumTo n (fun s => (gmul (gget x s) (gget y ((u.val + n - s) % n))).2)))
+
+/-- The sequence whose transform is the complex conjugate of the transform of `x`: `conj(x_{(n-u) mod n})`. -/
+def conjSeq (n : Nat) (x : Array (Int × Int)) : Array (Int × Int) :=
+  Array.ofFn (n := n) (fun u => ((gget x ((n - u.val) % n)).1, -(gget x ((n - u.val) % n)).2))
+
+/-- `±1·x^j` or `±i·x^j` (`j < n`): one coefficient of norm 1, all others zero (its transform has modulus 1 in every bin). -/
+def isUnitMonomial (n : Nat) (x : Array (Int × Int)) : Bool :=
+  (List.range n).any (fun j =>
+    (gget x j).1 * (gget x j).1 + (gget x j).2 * (gget x j).2 == 1
+      && (List.range n).all (fun u => u == j || ((gget x u).1 == 0 && (gget x u).2 == 0)))
+
+/-- `f x y` when both are defined. -/
+def lift2 {α : Type} (f : α → α → Option α) : Option α → Option α → Option α
+  | some x, some y => f x y
+  | _, _ => none
+
+/-- The coefficient sequence (length `n`, Gaussian integers) whose transform of size `n` the expression computes from the
+    transforms of the operands `vs`; `none` where the property says nothing (a division by `k` that is not exact, a
+    division by a spectrum that is not a unit monomial's). -/
+def SExpr.den (n : Nat) (vs : List (Array Int)) : SExpr → Option (Array (Int × Int))
+  | .leaf i => some (Array.ofFn (n := n) (fun u => ((vs.getD i #[]).getD u.val 0, 0)))
+  | .zero => some (Array.ofFn (n := n) (fun _ => (0, 0)))
+  | .one => some (Array.ofFn (n := n) (fun u => if u.val = 0 then (1, 0) else (0, 0)))
+  | .ci => some (Array.ofFn (n := n) (fun u => if u.val = 0 then (0, 1) else (0, 0)))
+  | .add a b => lift2 (fun x y =>
+      some (Array.ofFn (n := n) (fun u => ((gget x u.val).1 + (gget y u.val).1, (gget x u.val).2 + (gget y u.val).2))))
+      (a.den n vs) (b.den n vs)
+  | .sub a b => lift2 (fun x y =>
+      some (Array.ofFn (n := n) (fun u => ((gget x u.val).1 - (gget y u.val).1, (gget x u.val).2 - (gget y u.val).2))))
+      (a.den n vs) (b.den n vs)
+  | .mul a b => lift2 (fun x y => some (cycConv n x y)) (a.den n vs) (b.den n vs)
+  | .div a b => lift2 (fun x y => if isUnitMonomial n y then some (cycConv n x (conjSeq n y)) else none) (a.den n vs) (b.den n vs)
+  | .neg a => (a.den n vs).map (fun x => Array.ofFn (n := n) (fun u => (-(gget x u.val).1, -(gget x u.val).2)))
+  | .conj a => (a.den n vs).map (conjSeq n)
+  | .abs2 a => (a.den n vs).map (fun x => cycConv n x (conjSeq n x))
+  | .absq a => (a.den n vs).map (fun x => cycConv n x (conjSeq n x))
+  | .scale k a => (a.den n vs).map (fun x => Array.ofFn (n := n) (fun u => (k * (gget x u.val).1, k * (gget x u.val).2)))
+  | .divS k a =>
+    match a.den n vs with
+    | some x =>
+      if k ≠ 0 ∧ (List.range n).all (fun u => (gget x u).1 % k == 0 && (gget x u).2 % k == 0) then
+        some (Array.ofFn (n := n) (fun u => ((gget x u.val).1 / k, (gget x u.val).2 / k)))
+      else none
+    | none => none
+
+/-- The integer coefficients the inverse transform of the expression must deliver: defined when the sequence is real. -/
+def SExpr.expected (n : Nat) (vs : List (Array Int)) (e : SExpr) : Option (List Int) :=
+  match e.den n vs with
+  | some x => if (List.range n).all (fun u => (gget x u).2 == 0) then some ((List.range n).map (fun u => (gget x u).1)) else none
+  | none => none
 
 end Rlib.Fft
